@@ -30,6 +30,9 @@ type ReplayFile struct {
 	Digest    string     `json:"digest"`
 	Faults    map[string]int `json:"faults"`
 	Trace     []string   `json:"trace"`
+	// Known is the list of known findings that was suppressed while this run was recorded;
+	// the replay applies the same list so that it is the same execution.
+	Known string `json:"known,omitempty"`
 }
 
 type ViolationReport struct {
@@ -186,7 +189,11 @@ func Shrink(run RunFunc, prop, tier string, choices []uint64, want *Violation, m
 }
 
 // Main is the entry point shared by all simulator binaries.
-func Main(sim string, run RunFunc) {
+func Main(sim string, run RunFunc) { os.Exit(MainArgs(sim, run, os.Args[1:])) }
+
+// MainArgs runs the worker with explicit arguments and returns the exit code.
+func MainArgs(sim string, run RunFunc, args []string) int {
+	flag := flag.NewFlagSet(sim, flag.ExitOnError)
 	var (
 		prop     = flag.String("prop", "", "property id")
 		tier     = flag.String("tier", "quick", "quick|thorough")
@@ -208,7 +215,7 @@ func Main(sim string, run RunFunc) {
 		digLog   = flag.String("digestlog", "", "write one line 'run digest pathsig choices' per run (determinism self-test)")
 	)
 	cpuprof := flag.String("cpuprofile", "", "write cpu profile")
-	flag.Parse()
+	_ = flag.Parse(args)
 	logging.SetAllLoggers(logging.LevelFatal)
 	SetKnown(*known)
 	if *cpuprof != "" {
@@ -218,7 +225,7 @@ func Main(sim string, run RunFunc) {
 	}
 
 	if *replay != "" {
-		os.Exit(doReplay(sim, run, *replay, *dump))
+		return doReplay(sim, run, *replay, *dump)
 	}
 	if *one >= 0 {
 		rs := Mix3(*seed, sim+"/"+*prop, uint64(*one))
@@ -236,9 +243,9 @@ func Main(sim string, run RunFunc) {
 		b, _ := json.Marshal(res)
 		fmt.Println(string(b))
 		if infra != "" {
-			os.Exit(2)
+			return 2
 		}
-		return
+		return 0
 	}
 
 	start := time.Now()
@@ -251,7 +258,7 @@ func Main(sim string, run RunFunc) {
 		var err error
 		if dlog, err = os.Create(*digLog); err != nil {
 			fmt.Fprintln(os.Stderr, err)
-			os.Exit(2)
+			return 2
 		}
 		defer dlog.Close()
 	}
@@ -330,18 +337,19 @@ func Main(sim string, run RunFunc) {
 	if *out != "" {
 		if err := os.WriteFile(*out, b, 0o644); err != nil {
 			fmt.Fprintln(os.Stderr, "cannot write summary:", err)
-			os.Exit(2)
+			return 2
 		}
 	} else {
 		fmt.Println(string(b))
 	}
 	if len(sum.InfraErrors) > 0 {
 		fmt.Fprintln(os.Stderr, sum.InfraErrors[0])
-		os.Exit(2)
+		return 2
 	}
 	if len(sum.Violations) > 0 {
-		os.Exit(1)
+		return 1
 	}
+	return 0
 }
 
 func copyMap(m map[string]int) map[string]int {
@@ -375,7 +383,7 @@ func reportViolation(sim string, run RunFunc, prop, tier string, seed, idx, rs u
 		tr = tr[len(tr)-2000:]
 	}
 	rf := &ReplayFile{Property: v2.Prop, Sim: sim, Tier: tier, Seed: seed, Run: idx, RunSeed: rs, Choices: min, Original: len(choices),
-		Violation: v2, Digest: r.Digest(), Faults: r.Faults, Trace: tr}
+		Violation: v2, Digest: r.Digest(), Faults: r.Faults, Trace: tr, Known: KnownSpec()}
 	path := ""
 	if dir != "" {
 		_ = os.MkdirAll(dir, 0o755)
@@ -401,6 +409,7 @@ func doReplay(sim string, run RunFunc, path string, dump bool) int {
 		fmt.Fprintf(os.Stderr, "replay file is for simulator %q, this is %q\n", rf.Sim, sim)
 		return 2
 	}
+	SetKnown(rf.Known)
 	c := NewReplayChooser(rf.Choices)
 	r := NewRecorder(0)
 	r.KeepAll = true
